@@ -164,3 +164,18 @@ META["C14"] = {
 }
 
 CHECKS["C09"]["stages"].append(A("actor", "actor1", name="registry", cases={"quick": 1500, "thorough": 30000}, args=["--profile", "registry"]))
+
+
+# libFuzzer supplements (thorough tier only): the same case type, model and oracle behind a structure-aware byte decoder
+def F(binary, runs_thorough, name="libfuzzer", **kw):
+    d = {"name": name, "kind": "libfuzzer", "binary": "build/" + binary, "targets": ["build/" + binary], "libs": ("lib-fuzz",),
+         "runs": {"thorough": runs_thorough}}
+    d.update(kw)
+    return d
+
+CHECKS["C12"]["stages"].append(F("fuzz_qsl", 400000))
+CHECKS["C05"]["stages"].append(F("fuzz_map", 300000))
+CHECKS["C11"]["stages"].append(F("fuzz_bst", 400000))
+CHECKS["C10"]["stages"].append(F("fuzz_mem", 400000))
+for _p in ("C05", "C10", "C11", "C12"):
+    META[_p]["technique"] += " + coverage-guided libFuzzer campaign over the same op type and oracle (thorough tier)"
